@@ -13,7 +13,9 @@ ALL_PROPS = ['C%02d' % i for i in range(1, 21)]
 
 
 def select_units(specs, units, pid):
-    """units serving a property: its contracts, plus every lemma / spec-termination unit they can lean on"""
+    """units serving a property: its contracts, plus every lemma / spec-termination unit they can lean on, plus - when
+    one of its contracts assumes the representation invariant of a protocol - the base case of that invariant
+    (specs: INVARIANT_BASE = {'class prefix of the targets that assume it': [contracts establishing it]})"""
     sel = []
     for u in units:
         kind = u[0]
@@ -24,6 +26,14 @@ def select_units(specs, units, pid):
         else:
             if not props or pid in props:
                 sel.append(u)
+    base = specs.consts.get('INVARIANT_BASE', (None, None))[1] or {}
+    have = set(R.unit_label(u) for u in sel)
+    for prefix, keys in base.items():
+        if any(u[0] == 'contract' and u[1].startswith(prefix) for u in sel):
+            for u in units:
+                if u[0] == 'contract' and u[1] in keys and R.unit_label(u) not in have:
+                    have.add(R.unit_label(u))
+                    sel.append(u)
     return sel
 
 
